@@ -5,6 +5,8 @@ package sym
 import (
 	"fmt"
 	"go/types"
+	"os"
+	"runtime/debug"
 	"strings"
 
 	"golang.org/x/tools/go/ssa"
@@ -95,6 +97,9 @@ type Unsupported struct{ Msg string }
 func (u Unsupported) Error() string { return "unsupported: " + u.Msg }
 
 func unsupported(format string, a ...interface{}) {
+	if os.Getenv("GOWP_DEBUG") != "" {
+		panic(Unsupported{fmt.Sprintf(format, a...) + "\n" + string(debug.Stack())})
+	}
 	panic(Unsupported{fmt.Sprintf(format, a...)})
 }
 
